@@ -32,7 +32,15 @@ func (i *interpreter) toNative(fr *frame, v value, depth int) interface{} {
 		return nil
 	case ival:
 		if !x.t.IsConst() {
-			return nativeStringer{symPlaceholder}
+			// a symbolic operand whose value is uniquely determined by the path condition is rendered exactly
+			u, ok := i.pinnedValue(x.t)
+			if !ok {
+				return nativeStringer{symPlaceholder}
+			}
+			x = ival{i.ctx.BV(u, max(x.t.w, 1)), x.k}
+			if x.k == types.Bool {
+				return u != 0
+			}
 		}
 		switch x.k {
 		case types.Bool:
@@ -442,4 +450,32 @@ func (i *interpreter) sprintfSymStrings(fr *frame, format string, args []value) 
 		}
 	}
 	return mkStr(out)
+}
+
+
+// pinnedValue returns the value of t if the path condition admits exactly one.
+func (i *interpreter) pinnedValue(t *Term) (uint64, bool) {
+	e := i.ex
+	var v uint64
+	if e.modelValid {
+		v = e.ctx.Eval(t, e.model, map[int]uint64{})
+	} else {
+		r, m := e.check(nil)
+		if r != Sat {
+			return 0, false
+		}
+		e.model, e.modelValid = m, true
+		v = e.ctx.Eval(t, m, map[int]uint64{})
+	}
+	w := t.w
+	var c *Term
+	if w == 0 {
+		c = e.ctx.Bool(v != 0)
+	} else {
+		c = e.ctx.BV(v, w)
+	}
+	if r, _ := e.check(e.ctx.Not(e.ctx.Cmp(OpEq, t, c))); r != Unsat {
+		return 0, false
+	}
+	return v, true
 }
